@@ -380,7 +380,10 @@ def main():
         wall_s=round(time.time() - t0, 2),
         violations=len(violations),
     )
-    json.dump(ev, open(os.path.join(VERIF, "evidence", pid + ".json"), "w"), indent=1)
+    # evidence describes /repo itself; runs against a scratch tree (VERIF_REPO) write theirs under build/
+    evdir = os.path.join(VERIF, "evidence") if REPO == "/repo" else os.path.join(BUILD, "evidence_scratch")
+    os.makedirs(evdir, exist_ok=True)
+    json.dump(ev, open(os.path.join(evdir, pid + ".json"), "w"), indent=1)
     open(os.path.join(BUILD, pid + ".log"), "w").write("\n".join(log))
 
     for l in known_lines:
